@@ -447,8 +447,10 @@ const USERINFO_Q: [&str; 4] = ["", "u@", "u:p@", "a.b@"];
 const USERINFO_T: [&str; 10] = ["", "u@", "u:p@", "a.b@", "@", "u:@", ":p@", "é@", "u@v@", "u\t@"];
 const PORTS_Q: [&str; 2] = ["", ":8080"];
 const PORTS_T: [&str; 4] = ["", ":8080", ":", ":80"];
-const PATHS_Q: [&str; 6] = ["", "/", "/path/a.js?x=1#frag", "?utm=1&b=2", "#f", "/a@b/c:d?u=http://c.com/@x"];
-const PATHS_T: [&str; 9] = [
+const PATHS_Q: [&str; 8] = ["", "/", "/path/a.js?x=1#frag", "?utm=1&b=2", "#f", "/a@b/c:d?u=http://c.com/@x", "\\@evil.org/x", "\\p@q.r"];
+const PATHS_T: [&str; 11] = [
+    "\\@evil.org/x",
+    "\\p@q.r",
     "",
     "/",
     "/path/a.js?x=1#frag",
@@ -1135,6 +1137,12 @@ fn check(ctx: &Ctx) -> i32 {
         }
         let hi = &hosts[d[5]];
         let p = Parts { scheme: schemes[d[4]], slashes: slashes[d[3]], userinfo: userinfos[d[2]], host: &hi.text, port: ports[d[1]], path: paths[d[0]] };
+        // A backslash ends the authority only for the special schemes; after any other scheme the
+        // text up to the '@' would be userinfo and the host a different one: such URLs are not
+        // described by `Parts` and are left to the totality sweep.
+        if p.path.starts_with('\\') && !["http", "https", "ws", "wss", "ftp"].contains(&p.scheme.to_ascii_lowercase().as_str()) {
+            return;
+        }
         if i == (ctx.seed + 3) % n_urls || i == (ctx.seed.wrapping_mul(31) + n_urls / 2) % n_urls {
             l.samples.push(p.json(&inits[(i as usize + 1) % inits.len()], types[i as usize % types.len()]));
         }
